@@ -34,9 +34,12 @@ VARIABLES l,       \* next line of the trace
           ncid,    \* next content id
           cfg,     \* cfg of the current scenario
           fault,   \* a fault schedule is armed
+          closed,  \* C07: written files closed in this scenario: [fmt, ch, rate, val, kt, dig, flen]
+          canon,   \* C07/C14/C19: digests of the files closed by earlier scenarios with the same cfg.ckey
+          nclose,  \* number of write-closes in this scenario
           nscn, nev  \* counters for the evidence
 
-vars == <<l, skip, bad, hs, cont, files, ncid, cfg, fault, nscn, nev>>
+vars == <<l, skip, bad, hs, cont, files, ncid, cfg, fault, closed, canon, nclose, nscn, nev>>
 
 Ev == Tr[l]
 Has(e, f) == f \in DOMAIN e
@@ -101,7 +104,7 @@ NewHandle(e, cid, B, relax) ==
     [life |-> "open", mode |-> ModeOf(e.mode), ch |-> e.ch, fmt |-> e.fmt, rate |-> e.rate,
      B |-> B, gran |-> IsGranular(e.fmt), skb |-> (e.st.sk # 0),      \* (SF_INFO.seekable is zeroed for write handles; the handle itself knows)
      frames |-> IF ModeOf(e.mode) = SFM_WRITE THEN 0 ELSE e.st.fr, rpos |-> e.st.rp, wpos |-> e.st.wp, err |-> (e.st.er # 0),
-     hw |-> (e.st.hw # 0), auto |-> FALSE, relax |-> relax, cid |-> cid, fid |-> e.fid, route |-> e.route]
+     hw |-> (e.st.hw # 0), auto |-> FALSE, relax |-> relax, cid |-> cid, fid |-> e.fid, route |-> e.route, meta |-> <<>>]
 
 OpenFailedOK(e) == /\ e.gerr # 0 /\ e.gmsg > 0              \* C09: NULL, global error with a message
                    /\ Get(e, "fdleak", 0) = 0               \* C16: nothing left behind
@@ -167,12 +170,39 @@ OpenEffect(e) ==
 
 -----------------------------------------------------------------------------
 \* sf_close
+\* containers that store the file name in the header (C14: the only permitted difference between routes)
+NameInHeader(fmt) == Major(fmt) \in {M_SVX, M_MPC2K}
+
+\* C07: the bytes of a written file depend only on the open parameters and the concatenated samples --
+\* two files of this scenario with the same parameters and the same sample sequence are byte identical
+SameBytesOK(s, e) ==
+    LET cv == cont[s.cid] IN
+    \A i \in 1..Len(closed) :
+        LET f == closed[i] IN
+        (f.fmt = s.fmt /\ f.ch = s.ch /\ f.rate = s.rate /\ f.val = cv.val /\ f.kt = cv.kt /\ f.meta = s.meta
+            /\ ~(NameInHeader(s.fmt) /\ (f.route = "path") # (s.route = "path")))
+          => (f.dig = e.dig /\ f.flen = e.flen)
+\* and equal to what an earlier scenario (other process, other interleaving, other route) with the same key produced
+CanonOK(s, e) ==
+    (Has(cfg, "ckey") /\ cfg.ckey \in DOMAIN canon /\ nclose + 1 <= Len(canon[cfg.ckey]))
+        => canon[cfg.ckey][nclose + 1] = <<e.dig, e.flen>>
+
 CloseOK(s, e) ==
     /\ (~s.relax) => e.ret = 0
     /\ e.fdclosed # -1 => e.fdclosed = e.closedesc            \* C14
+    /\ (s.mode = SFM_WRITE /\ ~s.relax) => (SameBytesOK(s, e) /\ CanonOK(s, e))
 CloseEffect(s, e) ==
     LET cv == cont[s.cid] IN
     /\ hs' = [hs EXCEPT ![e.h] = Free]
+    /\ IF s.mode = SFM_WRITE /\ ~s.relax
+       THEN /\ closed' = Append(closed, [fmt |-> s.fmt, ch |-> s.ch, rate |-> s.rate, val |-> cv.val, kt |-> cv.kt, meta |-> s.meta,
+                                          route |-> s.route, dig |-> e.dig, flen |-> e.flen])
+            /\ nclose' = nclose + 1
+            /\ canon' = IF Has(cfg, "ckey") /\ ~(cfg.ckey \in DOMAIN canon /\ nclose + 1 <= Len(canon[cfg.ckey]))
+                         THEN (IF cfg.ckey \in DOMAIN canon THEN [canon EXCEPT ![cfg.ckey] = Append(@, <<e.dig, e.flen>>)]
+                               ELSE canon @@ (cfg.ckey :> << <<e.dig, e.flen>> >>))
+                         ELSE canon
+       ELSE UNCHANGED <<closed, nclose, canon>>
     /\ files' = IF s.mode = SFM_READ THEN files
                 ELSE [files EXCEPT ![s.fid] = [kind |-> IF s.relax THEN "hostile" ELSE "written", cid |-> s.cid, N |-> s.frames, B |-> s.B,
                                                fmt |-> s.fmt, ch |-> s.ch, rate |-> s.rate, gen |-> cv.gen, valid |-> TRUE]]
@@ -203,17 +233,17 @@ Obs ==
     LET e == Ev IN
     CASE e.op = "open" ->
             /\ hs[e.h].life = "free"
-            /\ OpenOK(e) /\ OpenEffect(e) /\ UNCHANGED files
+            /\ OpenOK(e) /\ OpenEffect(e) /\ UNCHANGED <<files, closed, nclose, canon>>
       [] e.op = "close" ->
             /\ hs[e.h].life = "open"
             /\ LET s == [hs[e.h] EXCEPT !.relax = @ \/ fault] IN CloseOK(s, e) /\ CloseEffect(s, e) /\ UNCHANGED <<cont, ncid>>
-      [] e.op = "file" -> FileEffect(e) /\ UNCHANGED <<hs, cont, ncid>>
-      [] e.op = "end" -> EndOK(e) /\ UNCHANGED <<hs, cont, files, ncid>>
+      [] e.op = "file" -> FileEffect(e) /\ UNCHANGED <<hs, cont, ncid, closed, nclose, canon>>
+      [] e.op = "end" -> EndOK(e) /\ UNCHANGED <<hs, cont, files, ncid, closed, nclose, canon>>
       [] e.op \in {"crash", "timeout"} -> FALSE                 \* a call that never returned (C03, C15)
-      [] e.op = "errtab" -> ErrTabOK(e) /\ UNCHANGED <<hs, cont, files, ncid>>
-      [] e.op \in {"fault", "fmtcheck", "fmtenum", "chexp", "chk"} -> UNCHANGED <<hs, cont, files, ncid>>
+      [] e.op = "errtab" -> ErrTabOK(e) /\ UNCHANGED <<hs, cont, files, ncid, closed, nclose, canon>>
+      [] e.op \in {"fault", "fmtcheck", "fmtenum", "chexp", "chk"} -> UNCHANGED <<hs, cont, files, ncid, closed, nclose, canon>>
       [] OTHER ->
-            IF e.h < 0 \/ ~HasState(e) THEN (e.op = "errq" => ErrQOK(e)) /\ UNCHANGED <<hs, cont, files, ncid>>
+            IF e.h < 0 \/ ~HasState(e) THEN (e.op = "errq" => ErrQOK(e)) /\ UNCHANGED <<hs, cont, files, ncid, closed, nclose, canon>>
             ELSE LET s == IF hs[e.h].life = "open" THEN [hs[e.h] EXCEPT !.relax = @ \/ fault] ELSE hs[e.h] IN
                  /\ s.life = "open"
                  /\ (e.op = "errq" => ErrQOK(e))
@@ -221,7 +251,7 @@ Obs ==
                  /\ LET p == CallPost(s, cont[s.cid], e) IN
                     /\ hs' = [hs EXCEPT ![e.h] = p.s]
                     /\ cont' = [cont EXCEPT ![s.cid] = p.cv]
-                 /\ UNCHANGED <<files, ncid>>
+                 /\ UNCHANGED <<files, ncid, closed, nclose, canon>>
 
 \* coarse reason for a rejection (evaluated only when Obs is not enabled)
 Why(e) ==
@@ -239,21 +269,23 @@ Why(e) ==
 TInit == /\ l = 1 /\ skip = FALSE /\ bad = <<>>
          /\ hs = [h \in HIDS |-> Free] /\ cont = [c \in 0..63 |-> NewContent] /\ files = [f \in FIDS |-> NoFile]
          /\ ncid = 0 /\ cfg = [idx |-> -1] /\ fault = FALSE /\ nscn = 0 /\ nev = 0
+         /\ closed = <<>> /\ nclose = 0 /\ canon = <<>>
 
 TNext ==
     /\ l <= Len(Tr) /\ l' = l + 1
     /\ IF Ev.op = "reset" THEN
             /\ hs' = [h \in HIDS |-> Free] /\ cont' = [c \in 0..63 |-> NewContent] /\ files' = [f \in FIDS |-> NoFile]
             /\ ncid' = 0 /\ cfg' = Ev.cfg /\ fault' = FALSE /\ skip' = FALSE /\ nscn' = nscn + 1
-            /\ UNCHANGED <<bad, nev>>
-       ELSE IF skip THEN UNCHANGED <<skip, bad, hs, cont, files, ncid, cfg, fault, nscn, nev>>
+            /\ closed' = <<>> /\ nclose' = 0
+            /\ UNCHANGED <<bad, nev, canon>>
+       ELSE IF skip THEN UNCHANGED <<skip, bad, hs, cont, files, ncid, cfg, fault, closed, canon, nclose, nscn, nev>>
        ELSE IF ENABLED Obs THEN
             /\ Obs /\ nev' = nev + 1
             /\ fault' = (fault \/ (Ev.op = "fault" /\ Ev.at > 0))
             /\ UNCHANGED <<skip, bad, cfg, nscn>>
        ELSE /\ skip' = TRUE
             /\ bad' = Append(bad, [s |-> Ev.s, i |-> Ev.i, op |-> Ev.op, why |-> Why(Ev), idx |-> cfg.idx])
-            /\ UNCHANGED <<hs, cont, files, ncid, cfg, fault, nscn, nev>>
+            /\ UNCHANGED <<hs, cont, files, ncid, cfg, fault, closed, canon, nclose, nscn, nev>>
 
 TSpec == TInit /\ [][TNext]_vars
 
